@@ -69,7 +69,7 @@ def gen_leaf(rng, hashable_only=False):
     if r < 0.62:
         return {'op': 'regex', 'name': rng.choice(['ra', 'rb', 'rs']), 'func': rng.choice(['fullmatch', 'match', 'search'])}
     if r < 0.72:
-        return {'op': 'pred', 'name': rng.choice(['yes', 'no', 'truthy', 'isnum', 'boom']), 'id': 0}
+        return {'op': 'pred', 'name': rng.choice(['yes', 'no', 'truthy', 'isnum', 'falsy', 'boom']), 'id': 0}
     if r < 0.95:
         rhs = rng.choice([{'k': 'int', 'i': 0}, {'k': 'int', 'i': 1}, {'k': 'str', 's': 'a'}, {'k': 'str', 's': 'b'},
                           {'k': 'none'}, {'k': 'bool', 'b': True}])
@@ -120,10 +120,39 @@ def spec_key_id(k):
     return None
 
 
+def gen_and_defaults(rng, depth):
+    """And over a dict pattern that fills in Optional defaults and children that tell the target
+    from the default-augmented dict (every child of And sees the target itself)"""
+    keys = rng.sample(['a', 'b', 'bb'], rng.randint(1, 2))
+    items = [[{'op': 'optional', 'key': {'k': 'str', 's': k}, 'hasdef': True, 'def': rand_tree(rng, 1)},
+              rng.choice([{'op': 'type', 't': 'int'}, {'op': 'type', 't': 'object'}])] for k in keys]
+    if rng.random() < 0.6:
+        items.append([{'op': 'type', 't': 'str'}, gen_pattern(rng, depth - 1) if rng.random() < 0.3 else {'op': 'type', 't': 'object'}])
+    filling = {'op': 'dict', 'items': items}
+    aug = {'k': 'c', 'cls': 'dict', 'items': [{'key': it[0]['key'], 'val': it[0]['def']} for it in items if it[0]['op'] == 'optional']}
+    empty = {'k': 'c', 'cls': 'dict', 'items': []}
+
+    def telling():
+        return rng.choice([{'op': 'm', 'cmp': '==', 'rhs': empty}, {'op': 'm', 'cmp': '!=', 'rhs': aug},
+                           {'op': 'm', 'cmp': '==', 'rhs': aug}, {'op': 'pred', 'name': 'falsy', 'id': 0},
+                           {'op': 'pred', 'name': 'truthy', 'id': 0}, {'op': 'dict', 'items': []},
+                           {'op': 'dict', 'items': [[{'op': 'type', 't': 'str'}, {'op': 'type', 't': 'str'}]]},
+                           {'op': 'not', 'form': 'ctor', 'c': [{'op': 'mtruthy'}]}, {'op': 'type', 't': 'dict'}])
+    kids = [filling] + [telling() for _ in range(rng.randint(1, 2))]
+    if rng.random() < 0.3:
+        rng.shuffle(kids)
+    p = {'op': 'and', 'form': 'ctor', 'hasdef': False, 'def': {'k': 'none'}, 'c': kids}
+    if rng.random() < 0.25:
+        p = {'op': 'or', 'form': 'ctor', 'hasdef': False, 'def': {'k': 'none'}, 'c': [p, gen_leaf(rng)]}
+    return p
+
+
 def gen_pattern(rng, depth):
     if depth <= 0 or rng.random() < 0.2:
         return gen_leaf(rng)
     r = rng.random()
+    if r < 0.06:
+        return gen_and_defaults(rng, depth)
     if r < 0.12:
         return {'op': rng.choice(['and', 'or']), 'form': 'ctor', 'hasdef': False, 'def': {'k': 'none'},
                 'c': [gen_pattern(rng, depth - 1) for _ in range(rng.randint(1, 3))]}
@@ -203,7 +232,8 @@ def conforming(rng, p, hashable=False):
         cands = [v for v in SCALARS if _holds_scalar(p, v)]
         return dict(rng.choice(cands)) if cands else None
     if op == 'and':
-        return conforming(rng, rng.choice(p['c']), hashable)
+        dicts = [c for c in p['c'] if c['op'] == 'dict' and c['items']]
+        return conforming(rng, rng.choice(dicts or p['c']), hashable)
     if op == 'or':
         return conforming(rng, rng.choice(p['c']), hashable)
     if op == 'not':
